@@ -167,6 +167,9 @@ def run(repo, rep, tier):  # noqa: F811 -- round-5 shape rules appended to the r
     if getattr(rep, "borrowed", False):
         return
     from ..core import round5 as _r5
+    from ..core.report import Only as _O5
+    from . import c06 as _c06b
+    _c06b._override_sibling(repo, _O5(rep, {"R06.11"}))
     _r5.override_consulted_first(repo, rep, "R06.14")
     _r5.loop_freshness(repo, rep, "R11.11")
     rep.floor("R11.11", 13)
@@ -178,3 +181,6 @@ LEVEL_TEXT += _ADDR5B
 _ADDR5C = ' Borrowed: R06.14 (the override look-up comes first in the packer / unpacker / schema creators).'
 EXPLANATION += _ADDR5C
 LEVEL_TEXT += _ADDR5C
+_ADDR5D = ' Borrowed: R06.11 (packer and schema resolve a serialize override with the same decision list; a deserialize-only dict strategy falls through to the next source).'
+EXPLANATION += _ADDR5D
+LEVEL_TEXT += _ADDR5D
